@@ -53,40 +53,73 @@ def check_list_discipline(chk, prog, eff):
             chk.add(Finding('C16.list-discipline', UNIT, fn, 'insert[%s]' % nm,
                             '%s links an item with %s: items must be appended with list_add_tail(&item->node, &set->head) (document order)'
                             % (fn, nm), line=node.get('_l')))
-    if ins and not unl:
-        # items are linked but nothing unlinks them: is an item released all the same?
-        root = eff.find('jwks_item_free', UNIT)
-        seen, parent = eff.reachable([root]) if root else (set(), {})
-        for k in sorted(seen, key=repr):
-            info = eff.funcs.get(k)
-            if info is None or k[0] != UNIT:
-                continue
-            for tgt, node in info['callsites']:
-                if tgt[1] in ('jwt_freemem', '__jwt_freemem', 'free') and len(node.get('inner', ())) > 1:
-                    a = _strip(node['inner'][1])
-                    qt = a.get('type', {}).get('qualType', '')
-                    if 'jwk_item' in qt and '*' in qt and a.get('kind') == 'DeclRefExpr':
-                        n += 1
-                        bad += 1
-                        chk.add(Finding('C16.list-discipline', UNIT, k[1], 'release-without-unlink',
-                                        '%s releases an item (%s) but no function of jwks.c unlinks items from the set: the list keeps a '
-                                        'pointer to released storage' % (k[1], qt), line=node.get('_l')))
-        if bad:
-            chk.rule('C16.list-discipline', 'items are linked only by list_add_tail(&item->node, &set->head); unlinked by list_del in one '
-                                            'destructor; no freeing inside a non-safe iteration', n, bad, floor=1)
-            return None
-    if not ins or not unl:
-        raise AnalysisBroken('list insert/unlink call sites not found in jwks.c')
-    destructors = sorted(set(fn for fn, nm, node in unl))
+    # the releaser: the function that hands its jwk_item_t * parameter to the allocator's free (found by type, not by name)
+    releasers = {}
+    for k, info in sorted(eff.funcs.items(), key=repr):
+        if k[0] != UNIT:
+            continue
+        params = set(p_.get('id') for p_ in info['decl'].get('inner', ()) if isinstance(p_, dict) and p_.get('kind') == 'ParmVarDecl'
+                     and 'jwk_item' in p_.get('type', {}).get('qualType', ''))
+        for tgt, node in info['callsites']:
+            if tgt[1] in ('jwt_freemem', '__jwt_freemem', 'free') and len(node.get('inner', ())) > 1:
+                a = _strip(node['inner'][1])
+                if a.get('kind') == 'DeclRefExpr' and a.get('referencedDecl', {}).get('id') in params:
+                    releasers[k[1]] = (info, a['referencedDecl']['id'], node)
+    if not ins or not releasers:
+        raise AnalysisBroken('list insert sites / item releaser not found in jwks.c')
+    if len(releasers) != 1:
+        raise AnalysisBroken('several functions release items: %s' % sorted(releasers))
+    rname, (rinfo, rparam, rfree) = list(releasers.items())[0]
+    destructors = [rname]
+
+    def unlinks_of(info, var_id):
+        out = []
+        for tgt, node in info['callsites']:
+            if tgt[1] in LIST_UNLINK and len(node.get('inner', ())) > 1:
+                if any(y.get('kind') == 'DeclRefExpr' and y.get('referencedDecl', {}).get('id') == var_id for y in walk(node['inner'][1])):
+                    out.append(node)
+        return out
     for fn, nm, node in unl:
         n += 1
         if nm != 'list_del':
             bad += 1
             chk.add(Finding('C16.list-discipline', UNIT, fn, 'unlink[%s]' % nm, '%s unlinks with %s' % (fn, nm), line=node.get('_l')))
-    if len(destructors) != 1:
-        bad += 1
-        chk.add(Finding('C16.list-discipline', UNIT, destructors[-1], 'several-unlinkers',
-                        'items are unlinked in several functions (%s): unlink-and-release must live in one destructor' % destructors))
+    r_unlinks = unlinks_of(rinfo, rparam)
+    chk.coverage['destructor_unlinks'] = bool(r_unlinks)      # if not, the callers' unlinks are checked instead (below)
+    if r_unlinks:
+        n += 1
+        if not (r_unlinks[0].get('_l') or 0) <= (rfree.get('_l') or 0):
+            bad += 1
+            chk.add(Finding('C16.list-discipline', UNIT, rname, 'unlink-after-release', 'the item is unlinked after its storage was released',
+                            line=r_unlinks[0].get('_l')))
+    else:
+        # the releaser does not unlink: every caller must have unlinked the very item it passes, before the call
+        for k, info in sorted(eff.funcs.items(), key=repr):
+            if k[0] != UNIT:
+                continue
+            for tgt, node in info['callsites']:
+                if tgt[1] != rname:
+                    continue
+                n += 1
+                a = _strip(node['inner'][1]) if len(node.get('inner', ())) > 1 else {}
+                vid = a.get('referencedDecl', {}).get('id') if a.get('kind') == 'DeclRefExpr' else None
+                before = [u for u in (unlinks_of(info, vid) if vid else []) if (u.get('_l') or 0) <= (node.get('_l') or 0)]
+                if not before:
+                    bad += 1
+                    chk.add(Finding('C16.list-discipline', UNIT, k[1], 'release-without-unlink',
+                                    '%s releases an item through %s without unlinking it first (%s itself does not unlink): the list keeps a '
+                                    'pointer to released storage' % (k[1], rname, rname), line=node.get('_l')))
+    # an unlink that is not followed by a release of the same item drops the item from the set and leaks it
+    for fn, nm, node in unl:
+        if fn == rname:
+            continue
+        info = eff.funcs.get((UNIT, fn))
+        calls_r = [nd for tgt, nd in info['callsites'] if tgt[1] == rname] if info else []
+        n += 1
+        if not calls_r:
+            bad += 1
+            chk.add(Finding('C16.list-discipline', UNIT, fn, 'unlink-without-release', '%s unlinks an item but never releases it' % fn,
+                            line=node.get('_l')))
     chk.coverage['destructor'] = destructors[0]
     # deletion-safe iteration
     for k, info in eff.funcs.items():
@@ -173,7 +206,7 @@ def check_destructor(chk, prog, env, model, dtor='__item_free'):
                 for k, key, msg, loc in s.ts.get('probs', ()):
                     bad += 1
                     chk.add(Finding('C16.destructor', UNIT, dtor, '%s[%s]' % (k, key), msg, line=loc[1]))
-                if not s.ts.get('unlinked'):
+                if not s.ts.get('unlinked') and chk.coverage.get('destructor_unlinks', True):
                     bad += 1
                     chk.add(Finding('C16.destructor', UNIT, dtor, 'not-unlinked', 'the item is released without being unlinked from the list'))
             for k, key, msg, (f, l), fn in memrules.dedupe(rule.viol):
